@@ -2481,6 +2481,8 @@ impl<'a> Parser<'a> {
                 prefix: false,
                 span,
             });
+            // `x++ as T`
+            expr = self.parse_type_assertion_suffix(expr, start)?;
         }
 
         Ok(expr)
@@ -2677,7 +2679,15 @@ impl<'a> Parser<'a> {
             });
         }
 
-        // TypeScript type assertion (as); assertions chain: `x as unknown as T`
+        self.parse_type_assertion_suffix(expr, start)
+    }
+
+    /// TypeScript type assertions after an operand: `x as T`; assertions chain: `x as unknown as T`
+    fn parse_type_assertion_suffix(
+        &mut self,
+        mut expr: Expression,
+        start: Span,
+    ) -> Result<Expression, JsError> {
         while self.match_token(&TokenKind::As) {
             // Handle "as const" - const assertion (TypeScript 3.4+)
             // This is a compile-time feature; at runtime we just return the value unchanged
